@@ -33,7 +33,7 @@ LEVEL_NOTE = ("Trusts numpy/scipy dense semantics as the reference. Matrices up 
               "Finds violations, does not prove absence.")
 DESIGN_REF = "DESIGN.md section 4, C35"
 ASSUMPTIONS = [
-    "matrices have no zero-length axis (outside documented use)",
+    "matrices have no zero-length axis (outside documented use), except the stacking axis of stack_mat",
     "integer-valued data so that equality is exact",
 ]
 
@@ -44,7 +44,7 @@ FNS = [
     "expand_indices_nd", "expand_indices_add_increment", "kron", "row_col_data", "optimized_storage",
 ]
 REQUIRED = {f: 0.015 for f in FNS}
-REQUIRED.update({"values-scaled": 0.03, "rle-int-large": 0.003, "rle-float-close": 0.003, "eip-ordered": 0.003, "eip-indptr": 0.006, "eip-ordered-overlap-and-gap": 0.002})
+REQUIRED.update({"stack-empty-A": 0.004, "stack-then-modify": 0.01, "values-scaled": 0.03, "rle-int-large": 0.003, "rle-float-close": 0.003, "eip-ordered": 0.003, "eip-indptr": 0.006, "eip-ordered-overlap-and-gap": 0.002})
 
 
 # ----------------------------------------------------------------------------- strategies
@@ -109,6 +109,10 @@ def _spec(draw):
             k = draw(st.integers(1, 6))
             shp = (k, A["shape"][1]) if fmt == "csr" else (A["shape"][0], k)
             B = draw(sparse_spec(fmts=(fmt,), shape=shp))
+            # no lines along the stacking axis in A or B (the function has a shortcut for that), and what happens to
+            # the two matrices afterwards
+            s["empty"] = draw(st.sampled_from([None, None, None, "A", "A", "B"]))
+            s["after"] = draw(st.sampled_from([None, "scale-B", "zero-A", "scale-A"]))
         else:
             B = draw(sparse_spec(fmts=(fmt,), max_dim=6))
         s.update(A=A, B=B)
@@ -297,12 +301,33 @@ def check(s):
         require(A.shape == D.shape, "merge-shape", "")
         require_equal(A.toarray(), D, "merge-values", f"merge_matrices != A[lines]=B ({fmt})")
     elif fn == "stack_mat":
-        A, B = build_sparse(s["A"]), build_sparse(s["B"])
-        D, E = dense_of(s["A"]), dense_of(s["B"])
+        fmt = s["A"]["fmt"]
+        sa, sb = dict(s["A"]), dict(s["B"])
+        for which, sp in (("A", sa), ("B", sb)):
+            if s.get("empty") == which:
+                sp["shape"] = [0, sp["shape"][1]] if fmt == "csr" else [sp["shape"][0], 0]
+                sp["entries"] = []
+                labels.append("stack-empty-" + which)
+        A, B = build_sparse(sa), build_sparse(sb)
+        D, E = dense_of(sa), dense_of(sb)
         mo.stack_mat(A, B)
-        exp = np.vstack((D, E)) if s["A"]["fmt"] == "csr" else np.hstack((D, E))
+        exp = np.vstack((D, E)) if fmt == "csr" else np.hstack((D, E))
         require(A.shape == exp.shape, "stack-shape", f"{A.shape} vs {exp.shape}")
         require_equal(A.toarray(), exp, "stack-values", "stack_mat")
+        # the two matrices stay two matrices: what is done to one of them afterwards does not show in the other
+        after = s.get("after")
+        if after == "scale-B" and B.data.size:
+            B.data *= 2.0
+            require_equal(A.toarray(), exp, "stack-then-modify", "A changed when B was scaled in place after stack_mat(A, B)")
+            labels.append("stack-then-modify")
+        elif after == "scale-A" and A.data.size:
+            A.data *= 2.0
+            require_equal(B.toarray(), E, "stack-then-modify", "B changed when A was scaled in place after stack_mat(A, B)")
+            labels.append("stack-then-modify")
+        elif after == "zero-A" and min(A.shape) > 0:
+            (mo.zero_rows if fmt == "csr" else mo.zero_columns)(A, np.arange(A.shape[0 if fmt == "csr" else 1]))
+            require_equal(B.toarray(), E, "stack-then-modify", "B changed when A was zeroed after stack_mat(A, B)")
+            labels.append("stack-then-modify")
     elif fn == "stack_diag":
         A, B = build_sparse(s["A"]), build_sparse(s["B"])
         D, E = dense_of(s["A"]), dense_of(s["B"])
